@@ -1,0 +1,16 @@
+//go:build verif
+
+// Export shim for the external verification harness (/verif, property C17 part B: storage-key
+// injectivity). Compiled only with the build tag `verif`. Thin wrappers that make the unexported
+// put/get storage helpers reachable as black-box key constructors; no contract logic lives here.
+
+package quorum
+
+import (
+	ecom "github.com/ethereum/go-ethereum/common"
+	"github.com/polynetwork/poly/native"
+)
+
+func VerifPutValSet(ns *native.NativeService, chainID, height uint64, vals []ecom.Address) {
+	putValSet(ns, chainID, height, vals)
+}
